@@ -1,0 +1,185 @@
+//go:build verif
+
+package store
+
+import (
+	"context"
+	"io"
+
+	"github.com/opencontainers/go-digest"
+
+	"github.com/olareg/olareg/types"
+)
+
+// VerifCtxKey is the context key used by the verification harness to label a request.
+type VerifCtxKey struct{}
+
+// VerifTap is called before (post=false) and after (post=true) every store call issued through a tapped store.
+// actor is the label found in the request context, call is the method name, arg describes the main argument.
+type VerifTap func(actor, repo, call, arg string, post bool, err error)
+
+type tapStore struct {
+	Store
+	tap VerifTap
+}
+
+type tapRepo struct {
+	Repo
+	tap   VerifTap
+	actor string
+	name  string
+}
+
+type tapBlobCreator struct {
+	BlobCreator
+	tap   VerifTap
+	actor string
+	name  string
+}
+
+// VerifTapStore wraps a store so that every call made by a handler is reported to tap.
+func VerifTapStore(s Store, tap VerifTap) Store {
+	return &tapStore{Store: s, tap: tap}
+}
+
+// verifUnwrapStore returns the store implementation below any tap.
+func verifUnwrapStore(s Store) Store {
+	for {
+		ts, ok := s.(*tapStore)
+		if !ok {
+			return s
+		}
+		s = ts.Store
+	}
+}
+
+// verifUnwrapRepo returns the repo implementation below any tap.
+func verifUnwrapRepo(r Repo) Repo {
+	for {
+		tr, ok := r.(*tapRepo)
+		if !ok {
+			return r
+		}
+		r = tr.Repo
+	}
+}
+
+func (ts *tapStore) RepoGet(ctx context.Context, repoStr string) (Repo, error) {
+	actor, _ := ctx.Value(VerifCtxKey{}).(string)
+	ts.tap(actor, repoStr, "RepoGet", "", false, nil)
+	r, err := ts.Store.RepoGet(ctx, repoStr)
+	ts.tap(actor, repoStr, "RepoGet", "", true, err)
+	if err != nil {
+		return nil, err
+	}
+	return &tapRepo{Repo: r, tap: ts.tap, actor: actor, name: repoStr}, nil
+}
+
+func (tr *tapRepo) IndexGet() (types.Index, error) {
+	tr.tap(tr.actor, tr.name, "IndexGet", "", false, nil)
+	i, err := tr.Repo.IndexGet()
+	tr.tap(tr.actor, tr.name, "IndexGet", "", true, err)
+	return i, err
+}
+
+func tapDescArg(desc types.Descriptor) string {
+	arg := desc.Digest.String()
+	if desc.Annotations != nil {
+		if t := desc.Annotations[types.AnnotRefName]; t != "" {
+			arg += " tag=" + t
+		}
+		if s := desc.Annotations[types.AnnotReferrerSubject]; s != "" {
+			arg += " subject=" + s
+		}
+	}
+	return arg
+}
+
+func (tr *tapRepo) IndexInsert(desc types.Descriptor, opts ...types.IndexOpt) error {
+	arg := tapDescArg(desc)
+	tr.tap(tr.actor, tr.name, "IndexInsert", arg, false, nil)
+	err := tr.Repo.IndexInsert(desc, opts...)
+	tr.tap(tr.actor, tr.name, "IndexInsert", arg, true, err)
+	return err
+}
+
+func (tr *tapRepo) IndexRemove(desc types.Descriptor) error {
+	arg := tapDescArg(desc)
+	tr.tap(tr.actor, tr.name, "IndexRemove", arg, false, nil)
+	err := tr.Repo.IndexRemove(desc)
+	tr.tap(tr.actor, tr.name, "IndexRemove", arg, true, err)
+	return err
+}
+
+func (tr *tapRepo) BlobGet(d digest.Digest) (io.ReadSeekCloser, error) {
+	tr.tap(tr.actor, tr.name, "BlobGet", d.String(), false, nil)
+	rdr, err := tr.Repo.BlobGet(d)
+	tr.tap(tr.actor, tr.name, "BlobGet", d.String(), true, err)
+	return rdr, err
+}
+
+func (tr *tapRepo) BlobCreate(opts ...BlobOpt) (BlobCreator, string, error) {
+	conf := blobConfig{}
+	for _, opt := range opts {
+		_ = opt(&conf)
+	}
+	arg := conf.expect.String()
+	tr.tap(tr.actor, tr.name, "BlobCreate", arg, false, nil)
+	bc, id, err := tr.Repo.BlobCreate(opts...)
+	tr.tap(tr.actor, tr.name, "BlobCreate", arg, true, err)
+	if err != nil {
+		return bc, id, err
+	}
+	return &tapBlobCreator{BlobCreator: bc, tap: tr.tap, actor: tr.actor, name: tr.name}, id, nil
+}
+
+func (tr *tapRepo) BlobDelete(d digest.Digest) error {
+	tr.tap(tr.actor, tr.name, "BlobDelete", d.String(), false, nil)
+	err := tr.Repo.BlobDelete(d)
+	tr.tap(tr.actor, tr.name, "BlobDelete", d.String(), true, err)
+	return err
+}
+
+func (tr *tapRepo) BlobSession(sessionID string) (BlobCreator, error) {
+	tr.tap(tr.actor, tr.name, "BlobSession", sessionID, false, nil)
+	bc, err := tr.Repo.BlobSession(sessionID)
+	tr.tap(tr.actor, tr.name, "BlobSession", sessionID, true, err)
+	if err != nil {
+		return bc, err
+	}
+	return &tapBlobCreator{BlobCreator: bc, tap: tr.tap, actor: tr.actor, name: tr.name}, nil
+}
+
+func (tr *tapRepo) Done() {
+	tr.tap(tr.actor, tr.name, "Done", "", false, nil)
+	tr.Repo.Done()
+	tr.tap(tr.actor, tr.name, "Done", "", true, nil)
+}
+
+func (tb *tapBlobCreator) Write(p []byte) (int, error) {
+	tb.tap(tb.actor, tb.name, "Write", "", false, nil)
+	n, err := tb.BlobCreator.Write(p)
+	tb.tap(tb.actor, tb.name, "Write", "", true, err)
+	return n, err
+}
+
+func (tb *tapBlobCreator) Close() error {
+	tb.tap(tb.actor, tb.name, "Close", "", false, nil)
+	err := tb.BlobCreator.Close()
+	tb.tap(tb.actor, tb.name, "Close", "", true, err)
+	return err
+}
+
+func (tb *tapBlobCreator) Cancel() error {
+	tb.tap(tb.actor, tb.name, "Cancel", "", false, nil)
+	err := tb.BlobCreator.Cancel()
+	tb.tap(tb.actor, tb.name, "Cancel", "", true, err)
+	return err
+}
+
+func (tb *tapBlobCreator) Verify(d digest.Digest) error {
+	tb.tap(tb.actor, tb.name, "Verify", d.String(), false, nil)
+	err := tb.BlobCreator.Verify(d)
+	tb.tap(tb.actor, tb.name, "Verify", d.String(), true, err)
+	return err
+}
